@@ -578,7 +578,7 @@ Proof.
   destruct (nth_error st (Z.to_nat c)) as [[k d]|] eqn:En.
   - rewrite set_nth_same by (apply nth_error_Some; congruence).
     rewrite (nth_error_nth _ _ _ En). reflexivity.
-  - rewrite nth_overflow by (apply nth_error_None; auto). cbn. reflexivity.
+  - rewrite nth_overflow by (apply nth_error_None; auto). cbn [snd]. now destruct (Z.to_nat i).
 Qed.
 
 (* every reference held by the queue points to a buffer given to Append *)
@@ -625,7 +625,7 @@ Proof. intros c Hc _. now rewrite cell_data_app. Qed.
 Lemma refs_ok_app st x q : refs_ok st q -> refs_ok (st ++ [x]) q.
 Proof.
   intros H c i Hin. destruct (H c i Hin) as (Hc & Hk).
-  rewrite zlen_app, zlen_cons, zlen_nil, aliased_cell_app; auto. split; auto. lia.
+  rewrite zlen_app, aliased_cell_app; auto. change (zlen [x]) with 1. split; auto. lia.
 Qed.
 
 Lemma agree_mutate_copied st c i v : aliased_cell st c = false -> agree st (mutate st c i v).
@@ -661,9 +661,9 @@ Lemma fifo_step_incl q bo o q' x :
 Proof.
   intros H Hin. inversion H; subst; cbn [bop_new]; unfold lits in *; rewrite ?map_id in *; auto;
     try (apply in_app_or in Hin; tauto);
-    try (apply In_zdrop in Hin; tauto).
-  - left. apply in_or_app. auto.
-  - destruct Hin.
+    try (apply In_zdrop in Hin; tauto);
+    try (left; apply in_or_app; auto; fail);
+    try (destruct Hin; fail).
 Qed.
 
 (* all bytes that occur in an answer *)
@@ -698,3 +698,467 @@ Proof.
   - do 2 f_equal. now apply map_ext_in.
   - do 3 f_equal. now apply map_ext_in.
 Qed.
+
+(* ------------------------------------------------------------------ *)
+(* one caller-level operation                                          *)
+
+Lemma lower_props st o : op_ok o -> is_mut o = false ->
+  bop_ok (snd (lower st o)) /\ agree st (fst (lower st o)) /\
+  (forall q, refs_ok st q -> refs_ok (fst (lower st o)) q) /\
+  refs_ok (fst (lower st o)) (bop_new (snd (lower st o))).
+Proof.
+  intros Hok Hm. destruct o as [p|p|p|c i v|bo]; cbn [lower fst snd bop_new bop_ok is_mut] in *; try discriminate.
+  - splits; auto using agree_app, refs_ok_app.
+    intros c i Hin. apply in_map_iff in Hin. destruct Hin as (z & E & _). discriminate.
+  - splits; auto using agree_app, refs_ok_app.
+    intros c i Hin. apply in_map_iff in Hin. destruct Hin as (z & E & _). discriminate.
+  - splits; auto using agree_app, refs_ok_app.
+    intros c i Hin. apply In_refs in Hin. destruct Hin as (j & E). inversion E; subst.
+    rewrite zlen_app, aliased_cell_new. change (zlen [(true, p)]) with 1.
+    pose proof (zlen_nonneg st). split; auto. lia.
+  - assert (agree st st) by (intros c _ _; reflexivity).
+    destruct bo; cbn [op_ok bop_ok bop_new] in *; splits; auto; try tauto;
+      try (intros c i []).
+    intros c i Hin. apply in_map_iff in Hin. destruct Hin as (z & E & _). discriminate.
+Qed.
+
+Lemma refs_ok_step st q bo o q' :
+  fifo_step id q bo o q' -> refs_ok st q -> refs_ok st (bop_new bo) -> refs_ok st q'.
+Proof.
+  intros Hs Hq Hn c i Hin. destruct (fifo_step_incl _ _ _ _ _ Hs Hin); eauto.
+Qed.
+
+Lemma world_step_refines w o : winv w -> op_ok o ->
+  wfifo_step (cells w) (vcontent w) o (snd (step w o)) (cells (fst (step w o))) (vcontent (fst (step w o)))
+  /\ winv (fst (step w o)).
+Proof.
+  intros (Hi & Hr) Hok. destruct (is_mut o) eqn:Hm.
+  - destruct o as [| | |c i v|]; try discriminate.
+    unfold step, vcontent. cbn [lower bstep map_out fst snd buf cells].
+    split; [|split; auto; cbn [buf cells]; auto using refs_ok_mutate].
+    destruct (aliased_cell (cells w) c) eqn:Hk.
+    + apply WS_mut_aliased; auto. now rewrite !zlen_map.
+    + rewrite <- (deref_agree (cells w) (mutate (cells w) c i v)); auto using agree_mutate_copied.
+      now apply WS_mut_copied.
+  - destruct (lower_props (cells w) o Hok Hm) as (Hbo & Hag & Hext & Hnew).
+    destruct (bstep_refines (buf w) (snd (lower (cells w) o)) Hi Hbo) as (Hs & Hi').
+    unfold step, vcontent. destruct (lower (cells w) o) as [st' bo] eqn:El. cbn [fst snd] in *.
+    destruct (bstep (buf w) bo) as [b' so] eqn:Eb. cbn [fst snd buf cells] in *.
+    split.
+    + rewrite (deref_agree (cells w) st'); auto.
+      replace st' with (fst (lower (cells w) o)) by now rewrite El.
+      apply WS_op; auto. rewrite El. cbn [fst snd]. now apply fifo_step_map.
+    + split; auto. eapply refs_ok_step; eauto.
+Qed.
+
+Theorem world_refines_fifo : forall os w, winv w -> Forall op_ok os ->
+  wfifo_run (cells w) (vcontent w) os (fst (run_world os w))
+            (cells (snd (run_world os w))) (vcontent (snd (run_world os w)))
+  /\ winv (snd (run_world os w)).
+Proof.
+  induction os as [|o r IH]; intros w Hw Hok; cbn [run_world].
+  - cbn [fst snd]. split; auto. constructor.
+  - inversion Hok; subst.
+    destruct (world_step_refines w o Hw) as (Hs & Hw1); auto.
+    destruct (step w o) as [w1 x]. cbn [fst snd] in *.
+    destruct (IH w1 Hw1) as (Hr & Hw2); auto.
+    destruct (run_world r w1) as [xs w2]. cbn [fst snd] in *.
+    split; auto. econstructor; eauto.
+Qed.
+
+(* ------------------------------------------------------------------ *)
+(* counters, IsEmpty, ReadFrom                                         *)
+
+Lemma vcontent_len w : zlen (vcontent w) = zlen (content (buf w)).
+Proof. unfold vcontent. apply zlen_map. Qed.
+
+Theorem llist_counters : forall os, Forall op_ok os ->
+  let w := snd (run_world os init_world) in
+  Buffered (buf w) = zlen (vcontent w) /\
+  Buffered (buf w) = zlen (List.concat (segs (buf w))) /\
+  Len (buf w) = zlen (segs (buf w)).
+Proof.
+  intros os Hok w. destruct (world_refines_fifo os init_world winv_init Hok) as (_ & (H1 & H2 & _) & _).
+  fold w in H1, H2. unfold Buffered, Len. rewrite vcontent_len. auto.
+Qed.
+
+Lemma inv_isempty_iff b : inv b -> (IsEmpty b = true <-> Buffered b = 0).
+Proof.
+  intros (H1 & H2 & H3). unfold IsEmpty, Buffered. rewrite H2. unfold content.
+  destruct (segs b) as [|s r]; cbn [List.concat].
+  - split; auto.
+  - inversion H3; subst. rewrite zlen_app. pose proof (zlen_pos s H4). pose proof (zlen_nonneg (List.concat r)).
+    split; [discriminate|lia].
+Qed.
+
+Theorem llist_isempty_iff : forall os, Forall op_ok os ->
+  let w := snd (run_world os init_world) in
+  IsEmpty (buf w) = true <-> Buffered (buf w) = 0.
+Proof.
+  intros os Hok w. destruct (world_refines_fifo os init_world winv_init Hok) as (_ & Hi & _).
+  now apply inv_isempty_iff.
+Qed.
+
+Theorem readfrom_stores_all : forall os src sc, Forall op_ok os -> script_ok sc ->
+  let w := snd (run_world os init_world) in
+  let w' := fst (step w (OBuf (BReadFrom src sc))) in
+  let returned := fst (reader_run sc src) in
+  snd (step w (OBuf (BReadFrom src sc))) = OutReadFrom (Ret (zlen returned, snd (reader_run sc src))) /\
+  vcontent w' = vcontent w ++ returned /\
+  Buffered (buf w') = Buffered (buf w) + zlen returned.
+Proof.
+  intros os src sc Hok Hsc w w' returned.
+  destruct (world_refines_fifo os init_world winv_init Hok) as (_ & Hi & Hr). fold w in Hi, Hr.
+  subst w'. unfold step, vcontent. cbn [lower bstep]. unfold ReadFrom.
+  destruct (readfrom_loop_spec sc src (buf w) 0 Hsc Hi) as (b' & E & Hc & Hi').
+  rewrite E. cbn [fst snd buf cells map_out]. rewrite Hc, map_app, map_map. cbn [deref]. rewrite map_id.
+  splits; auto.
+  destruct Hi as (_ & Hb & _), Hi' as (_ & Hb' & _). unfold Buffered. rewrite Hb, Hb', Hc, zlen_app, zlen_map.
+  reflexivity.
+Qed.
+
+(* ------------------------------------------------------------------ *)
+(* PushBack / PushFront copy: caller writes to such buffers are never   *)
+(* visible -- simulation between two caller memories that differ only   *)
+(* in buffers that were not given to Append                            *)
+
+Definition sim_store (st1 st2 : store) : Prop :=
+  map fst st1 = map fst st2 /\ agree st1 st2.
+
+Lemma sim_length st1 st2 : sim_store st1 st2 -> zlen st1 = zlen st2.
+Proof. intros (H & _). unfold zlen. now rewrite <- (map_length fst st1), H, map_length. Qed.
+
+Lemma aliased_cell_kinds st1 st2 c : map fst st1 = map fst st2 -> aliased_cell st1 c = aliased_cell st2 c.
+Proof.
+  intros H. unfold aliased_cell. destruct (c <? 0); auto.
+  rewrite <- (map_nth fst st1), <- (map_nth fst st2). now rewrite H.
+Qed.
+
+Lemma map_fst_set_nth : forall n (st : store) k d d', nth_error st n = Some (k, d) ->
+  map fst (set_nth n (k, d') st) = map fst st.
+Proof.
+  induction n; intros [|[k0 d0] st] k d d' H; cbn in *; try discriminate.
+  - inversion H; subst. reflexivity.
+  - f_equal. eapply IHn; eauto.
+Qed.
+
+Lemma map_fst_mutate st c i v : map fst (mutate st c i v) = map fst st.
+Proof.
+  unfold mutate. destruct ((c <? 0) || (i <? 0)); auto.
+  destruct (nth_error st (Z.to_nat c)) as [[k d]|] eqn:E; auto. eapply map_fst_set_nth; eauto.
+Qed.
+
+Lemma cell_data_new st x : cell_data (st ++ [x]) (zlen st) = snd x.
+Proof.
+  unfold cell_data, zlen. replace (Z.of_nat (List.length st) <? 0) with false by lia.
+  rewrite Nat2Z.id, app_nth2, Nat.sub_diag by lia. reflexivity.
+Qed.
+
+Lemma sim_store_app st1 st2 x : sim_store st1 st2 -> sim_store (st1 ++ [x]) (st2 ++ [x]).
+Proof.
+  intros Hs. pose proof (sim_length _ _ Hs) as Hl. destruct Hs as (Hk & Ha). split.
+  - now rewrite !map_app, Hk.
+  - intros c Hc Hal. rewrite zlen_app in Hc. change (zlen [x]) with 1 in Hc.
+    destruct (Z.eq_dec c (zlen st1)) as [->|Hne].
+    + rewrite cell_data_new. rewrite Hl. now rewrite cell_data_new.
+    + rewrite aliased_cell_app in Hal by lia. rewrite !cell_data_app by lia. apply Ha; auto. lia.
+Qed.
+
+Lemma sim_store_mutate st1 st2 c i v : sim_store st1 st2 -> sim_store (mutate st1 c i v) (mutate st2 c i v).
+Proof.
+  intros Hs. pose proof (sim_length _ _ Hs) as Hl. destruct Hs as (Hk & Ha). split.
+  - now rewrite !map_fst_mutate.
+  - intros c' Hc' Hal. rewrite mutate_kind in Hal. unfold zlen in Hc'. rewrite mutate_length in Hc'.
+    destruct (Z.eq_dec c' c) as [->|Hne].
+    + rewrite !mutate_same. rewrite (Ha c); auto.
+    + rewrite !mutate_other; auto.
+Qed.
+
+Lemma sim_step w1 w2 o : winv w1 -> op_ok o -> buf w1 = buf w2 -> sim_store (cells w1) (cells w2) ->
+  snd (step w1 o) = snd (step w2 o) /\
+  buf (fst (step w1 o)) = buf (fst (step w2 o)) /\
+  sim_store (cells (fst (step w1 o))) (cells (fst (step w2 o))).
+Proof.
+  intros (Hi & Hr) Hok Hb Hs. pose proof (sim_length _ _ Hs) as Hl.
+  destruct (is_mut o) eqn:Hm.
+  - destruct o as [| | |c i v|]; try discriminate.
+    unfold step. cbn [lower bstep map_out fst snd buf cells]. splits; auto using sim_store_mutate.
+  - destruct (lower_props (cells w1) o Hok Hm) as (Hbo & Hag & Hext & Hnew).
+    assert (snd (lower (cells w1) o) = snd (lower (cells w2) o) /\
+            sim_store (fst (lower (cells w1) o)) (fst (lower (cells w2) o))) as (Ebo & Hs').
+    { destruct o; cbn [lower fst snd]; try rewrite Hl; auto using sim_store_app. discriminate. }
+    destruct (bstep_refines (buf w1) (snd (lower (cells w1) o)) Hi Hbo) as (Hst & Hi').
+    unfold step. rewrite <- Hb.
+    destruct (lower (cells w1) o) as [st1' bo] eqn:E1. destruct (lower (cells w2) o) as [st2' bo2] eqn:E2.
+    cbn [fst snd] in *. subst bo2.
+    destruct (bstep (buf w1) bo) as [b' so]. cbn [fst snd buf cells] in *. splits; auto.
+    apply map_out_ext. intros x Hx.
+    destruct (fifo_step_out_incl _ _ _ _ x Hst Hx) as [Hin|(z & ->)]; auto.
+    destruct x as [z|c i]; cbn [deref]; auto.
+    destruct (Hext _ Hr c i Hin) as (Hc & Hk). destruct Hs' as (_ & Ha'). now rewrite (Ha' c Hc Hk).
+Qed.
+
+Lemma sim_run : forall os w1 w2, winv w1 -> Forall op_ok os -> buf w1 = buf w2 ->
+  sim_store (cells w1) (cells w2) ->
+  fst (run_world os w1) = fst (run_world os w2) /\
+  buf (snd (run_world os w1)) = buf (snd (run_world os w2)) /\
+  sim_store (cells (snd (run_world os w1))) (cells (snd (run_world os w2))) /\
+  winv (snd (run_world os w1)).
+Proof.
+  induction os as [|o r IH]; intros w1 w2 Hw Hok Hb Hs; cbn [run_world].
+  - cbn [fst snd]. auto.
+  - inversion Hok; subst.
+    destruct (sim_step w1 w2 o Hw) as (Eo & Hb1 & Hs1); auto.
+    destruct (world_step_refines w1 o Hw) as (_ & Hw1); auto.
+    destruct (step w1 o) as [w1' x1]. destruct (step w2 o) as [w2' x2]. cbn [fst snd] in *. subst x2.
+    destruct (IH w1' w2' Hw1) as (Er & Hb2 & Hs2 & Hw2); auto.
+    destruct (run_world r w1') as [xs1 w1'']. destruct (run_world r w2') as [xs2 w2'']. cbn [fst snd] in *.
+    splits; auto. now f_equal.
+Qed.
+
+Lemma sim_vcontent w1 w2 : winv w1 -> buf w1 = buf w2 -> sim_store (cells w1) (cells w2) ->
+  vcontent w1 = vcontent w2.
+Proof.
+  intros (_ & Hr) Hb (_ & Ha). unfold vcontent. rewrite <- Hb. now apply deref_agree.
+Qed.
+
+Lemma sim_store_mutate_copied st c i v : aliased_cell st c = false -> sim_store st (mutate st c i v).
+Proof. intros H. split; [now rewrite map_fst_mutate|now apply agree_mutate_copied]. Qed.
+
+(* the general form: any caller buffer that was not given to Append *)
+Theorem copied_cell_writes_invisible : forall os c i v os2, Forall op_ok os -> Forall op_ok os2 ->
+  let w := snd (run_world os init_world) in
+  aliased_cell (cells w) c = false ->
+  let wm := fst (step w (OMut c i v)) in
+  buf wm = buf w /\ vcontent wm = vcontent w /\
+  fst (run_world os2 wm) = fst (run_world os2 w) /\
+  vcontent (snd (run_world os2 wm)) = vcontent (snd (run_world os2 w)).
+Proof.
+  intros os c i v os2 Hok Hok2 w Hk wm.
+  destruct (world_refines_fifo os init_world winv_init Hok) as (_ & Hw). fold w in Hw.
+  assert (buf w = buf wm) as Hb by reflexivity.
+  assert (sim_store (cells w) (cells wm)) as Hs by (apply sim_store_mutate_copied; auto).
+  destruct (sim_run os2 w wm Hw Hok2 Hb Hs) as (Eo & Hb2 & Hs2 & Hw2).
+  splits; auto.
+  - symmetry. now apply sim_vcontent.
+  - symmetry. now apply sim_vcontent.
+Qed.
+
+(* the buffer passed to PushBack / PushFront is such a buffer, for ever *)
+Lemma kinds_step w o : exists x, map fst (cells (fst (step w o))) = map fst (cells w) ++ x.
+Proof.
+  unfold step. destruct o; cbn [lower]; destruct (bstep (buf w) _); cbn [fst cells];
+    rewrite ?map_app, ?map_fst_mutate; eauto; exists []; now rewrite app_nil_r.
+Qed.
+
+Lemma kinds_run : forall os w, exists x, map fst (cells (snd (run_world os w))) = map fst (cells w) ++ x.
+Proof.
+  induction os as [|o r IH]; intros w; cbn [run_world].
+  - exists []. now rewrite app_nil_r.
+  - destruct (kinds_step w o) as (x1 & E1). destruct (step w o) as [w1 y]. cbn [fst] in E1.
+    destruct (IH w1) as (x2 & E2). destruct (run_world r w1) as [ys w2]. cbn [snd] in *.
+    exists (x1 ++ x2). now rewrite E2, E1, app_assoc.
+Qed.
+
+Lemma aliased_cell_nth st c : 0 <= c -> aliased_cell st c = nth (Z.to_nat c) (map fst st) false.
+Proof.
+  intros H. unfold aliased_cell. replace (c <? 0) with false by lia.
+  now rewrite <- (map_nth fst st).
+Qed.
+
+Lemma pushed_cell_copied (push : list Z -> op) p os w :
+  push = OPushBack \/ push = OPushFront ->
+  aliased_cell (cells (snd (run_world (push p :: os) w))) (zlen (cells w)) = false.
+Proof.
+  intros Hp. cbn [run_world].
+  assert (map fst (cells (fst (step w (push p)))) = map fst (cells w) ++ [false]) as E1.
+  { destruct Hp; subst push; unfold step; cbn [lower]; destruct (bstep (buf w) _); cbn [fst cells];
+      now rewrite map_app. }
+  destruct (step w (push p)) as [w1 y]. cbn [fst] in E1.
+  destruct (kinds_run os w1) as (x & E2). destruct (run_world os w1) as [ys w2]. cbn [snd] in *.
+  rewrite aliased_cell_nth by apply zlen_nonneg. rewrite E2, E1, <- app_assoc.
+  unfold zlen. rewrite Nat2Z.id, app_nth2 by (rewrite map_length; lia).
+  rewrite map_length, Nat.sub_diag. reflexivity.
+Qed.
+
+Lemma run_world_app_snd : forall a b w,
+  snd (run_world (a ++ b) w) = snd (run_world b (snd (run_world a w))).
+Proof.
+  induction a as [|o r IH]; intros b w; cbn [app run_world snd]; auto.
+  destruct (step w o) as [w1 y]. specialize (IH b w1).
+  destruct (run_world (r ++ b) w1) as [ys w2]. destruct (run_world r w1) as [ys' w2'].
+  cbn [snd] in *. exact IH.
+Qed.
+
+Theorem pushback_copies : forall (push : list Z -> op) os p os1 i v os2,
+  push = OPushBack \/ push = OPushFront ->
+  Forall op_ok os -> Forall op_ok os1 -> Forall op_ok os2 ->
+  let w0 := snd (run_world os init_world) in
+  let c := zlen (cells w0) in                         (* the caller's buffer holding p *)
+  let w := snd (run_world (push p :: os1) w0) in      (* pushed, then anything *)
+  let wm := fst (step w (OMut c i v)) in              (* the caller overwrites its buffer *)
+  vcontent wm = vcontent w /\
+  fst (run_world os2 wm) = fst (run_world os2 w) /\
+  vcontent (snd (run_world os2 wm)) = vcontent (snd (run_world os2 w)).
+Proof.
+  intros push os p os1 i v os2 Hp Hok Hok1 Hok2 w0 c w wm.
+  assert (w = snd (run_world (os ++ push p :: os1) init_world)) as Ew.
+  { subst w w0. now rewrite run_world_app_snd. }
+  assert (Forall op_ok (os ++ push p :: os1)) as Hall.
+  { apply Forall_app. split; auto. constructor; auto. destruct Hp; subst push; exact I. }
+  assert (aliased_cell (cells w) c = false) as Hk by (apply pushed_cell_copied; auto).
+  rewrite Ew in Hk |- *. subst wm. rewrite Ew.
+  destruct (copied_cell_writes_invisible (os ++ push p :: os1) c i v os2 Hall Hok2 Hk) as (_ & H1 & H2 & H3).
+  auto.
+Qed.
+
+(* ------------------------------------------------------------------ *)
+(* no panic with contract-respecting readers and writers               *)
+
+Definition is_panic {A} (o : out A) : bool :=
+  match o with
+  | OutPeek Panic | OutReadFrom Panic | OutWriteTo Panic => true
+  | _ => false
+  end.
+
+Lemma fifo_step_no_panic {A} (f : sbyte -> A) q bo o q' : fifo_step f q bo o q' -> is_panic o = false.
+Proof. intros H. inversion H; reflexivity. Qed.
+
+Theorem llist_no_panic : forall os, Forall op_ok os ->
+  Forall (fun o => is_panic o = false) (fst (run_world os init_world)).
+Proof.
+  intros os Hok. destruct (world_refines_fifo os init_world winv_init Hok) as (Hr & _).
+  induction Hr; constructor; auto.
+  - inversion H; subst; auto. eapply fifo_step_no_panic; eauto.
+  - apply IHHr. now inversion Hok.
+Qed.
+
+(* ------------------------------------------------------------------ *)
+(* the operations spelled out on byte values                           *)
+
+Lemma lits_deref st p : lits (deref st) p = p.
+Proof. unfold lits. rewrite map_map. cbn [deref]. apply map_id. Qed.
+
+Lemma map_nth_seq {A} (d : A) : forall l pre,
+  map (fun i => nth i (pre ++ l) d) (seq (List.length pre) (List.length l)) = l.
+Proof.
+  induction l as [|x l IH]; intros pre; cbn [List.length seq map]; auto.
+  rewrite app_nth2, Nat.sub_diag by lia. cbn [nth]. f_equal.
+  specialize (IH (pre ++ [x])). rewrite app_length, <- app_assoc in IH. cbn [List.length app] in IH.
+  now rewrite Nat.add_1_r in IH.
+Qed.
+
+Lemma deref_refs st k p : map (deref (st ++ [(k, p)])) (refs (zlen st) (List.length p)) = p.
+Proof.
+  unfold refs. rewrite map_map.
+  transitivity (map (fun i => nth i ([] ++ p) 0) (seq (List.length (@nil Z)) (List.length p)));
+    [|apply map_nth_seq].
+  cbn [List.length app]. apply map_ext. intros i. cbn [deref].
+  replace (Z.of_nat i <? 0) with false by lia. rewrite cell_data_new, Nat2Z.id. reflexivity.
+Qed.
+
+Lemma wfifo_step_nonmut st q o r st' q' : wfifo_step st q o r st' q' -> is_mut o = false ->
+  fifo_step (deref (fst (lower st o))) q (snd (lower st o)) r q'.
+Proof. intros H Hm. inversion H; subst; auto; discriminate. Qed.
+
+Section Reachable.
+Context (os : list op) (Hok : Forall op_ok os).
+Let w := snd (run_world os init_world).
+Let q := vcontent w.
+
+Lemma reach_winv : winv w.
+Proof. exact (proj2 (world_refines_fifo os init_world winv_init Hok)). Qed.
+
+Lemma reach_buf_step bo : op_ok (OBuf bo) ->
+  fifo_step (deref (cells w)) q bo (snd (step w (OBuf bo))) (vcontent (fst (step w (OBuf bo)))) /\
+  cells (fst (step w (OBuf bo))) = cells w.
+Proof.
+  intros Hb. destruct (world_step_refines w (OBuf bo) reach_winv Hb) as (Hs & _).
+  inversion Hs; subst. cbn [lower fst snd] in *. split; auto.
+Qed.
+
+Theorem read_exact n : 0 <= n ->
+  snd (step w (OBuf (BRead n))) =
+    OutRead (Z.min n (zlen q)) (if (0 <? n) && (zlen q =? 0) then EEOF else ENil) (ztake n q) /\
+  vcontent (fst (step w (OBuf (BRead n)))) = zdrop n q.
+Proof.
+  intros Hn. destruct (reach_buf_step (BRead n) Hn) as (Hs & _).
+  inversion Hs; subst. rewrite zlen_ztake by lia. auto.
+Qed.
+
+Theorem peek_exact n :
+  exists e bss, snd (step w (OBuf (BPeek n))) = OutPeek (Ret (e, bss)) /\
+    vcontent (fst (step w (OBuf (BPeek n)))) = q /\
+    ((n <= 0 \/ n = MaxInt32) -> e = ENil /\ List.concat bss = ztake MaxInt32 q) /\
+    (0 < n <= zlen q -> n <> MaxInt32 -> e = ENil /\ List.concat bss = ztake n q) /\
+    (zlen q < n -> n <> MaxInt32 -> e = EShortBuf /\ bss = []).
+Proof.
+  destruct (reach_buf_step (BPeek n) I) as (Hs & _).
+  pose proof (zlen_nonneg q) as Hq.
+  inversion Hs; subst; eexists _, _; splits; eauto; intros; try lia; auto.
+Qed.
+
+Theorem pop_exact :
+  (q = [] /\ snd (step w (OBuf BPop)) = OutPop None /\ vcontent (fst (step w (OBuf BPop))) = []) \/
+  (exists s, s <> [] /\ snd (step w (OBuf BPop)) = OutPop (Some s) /\
+             q = s ++ vcontent (fst (step w (OBuf BPop)))).
+Proof.
+  destruct (reach_buf_step BPop I) as (Hs & _).
+  inversion Hs; subst.
+  - left. auto.
+  - right. exists s. auto.
+Qed.
+
+Theorem discard_exact n :
+  snd (step w (OBuf (BDiscard n))) = OutDiscard (Z.max 0 (Z.min n (zlen q))) /\
+  vcontent (fst (step w (OBuf (BDiscard n)))) = zdrop n q.
+Proof.
+  destruct (reach_buf_step (BDiscard n) I) as (Hs & _).
+  inversion Hs; subst. split; auto. f_equal.
+  destruct (Z.le_gt_cases n 0).
+  - rewrite ztake_le0 by lia. pose proof (zlen_nonneg q). rewrite zlen_nil. lia.
+  - rewrite zlen_ztake by lia. pose proof (zlen_nonneg q). lia.
+Qed.
+
+Theorem writeto_exact sc : script_ok sc ->
+  exists k e, snd (step w (OBuf (BWriteTo sc))) = OutWriteTo (Ret (k, e, ztake k q)) /\
+    vcontent (fst (step w (OBuf (BWriteTo sc)))) = zdrop k q /\
+    0 <= k <= zlen q /\ (e = ENil -> k = zlen q).
+Proof.
+  intros Hsc. destruct (reach_buf_step (BWriteTo sc) Hsc) as (Hs & _).
+  inversion Hs; subst. eexists _, _; splits; eauto; lia.
+Qed.
+
+Theorem push_exact p :
+  vcontent (fst (step w (OPushBack p))) = q ++ p /\
+  vcontent (fst (step w (OPushFront p))) = p ++ q /\
+  vcontent (fst (step w (OAppend p))) = q ++ p.
+Proof.
+  splits.
+  - destruct (world_step_refines w (OPushBack p) reach_winv I) as (Hs & _).
+    apply wfifo_step_nonmut in Hs; [|reflexivity]. cbn [lower fst snd] in Hs.
+    remember (vcontent (fst (step w (OPushBack p)))) as q'. clear Heqq'.
+    inversion Hs; subst. now rewrite lits_deref.
+  - destruct (world_step_refines w (OPushFront p) reach_winv I) as (Hs & _).
+    apply wfifo_step_nonmut in Hs; [|reflexivity]. cbn [lower fst snd] in Hs.
+    remember (vcontent (fst (step w (OPushFront p)))) as q'. clear Heqq'.
+    inversion Hs; subst. now rewrite lits_deref.
+  - destruct (world_step_refines w (OAppend p) reach_winv I) as (Hs & _).
+    apply wfifo_step_nonmut in Hs; [|reflexivity]. cbn [lower fst snd] in Hs.
+    remember (vcontent (fst (step w (OAppend p)))) as q'. clear Heqq'.
+    inversion Hs; subst. now rewrite deref_refs.
+Qed.
+
+End Reachable.
+
+(* ------------------------------------------------------------------ *)
+(* the forms quoted in Properties/C11.v                                *)
+
+Theorem llist_refines_fifo_empty : forall bos, Forall bop_ok bos ->
+  fifo_run id [] bos (fst (run_buffer bos empty_buffer)) (content (snd (run_buffer bos empty_buffer))).
+Proof. intros bos H. exact (proj1 (llist_refines_fifo bos empty_buffer inv_empty H)). Qed.
+
+Theorem world_refines_fifo_init : forall os, Forall op_ok os ->
+  wfifo_run [] [] os (fst (run_world os init_world))
+            (cells (snd (run_world os init_world))) (vcontent (snd (run_world os init_world))).
+Proof. intros os H. exact (proj1 (world_refines_fifo os init_world winv_init H)). Qed.
